@@ -18,7 +18,9 @@ LEVEL_TEXT = (
 )
 TRUSTED = "harness dependency computation (independent DFS, self-tested)"
 RULE = (
-    "case = node records [graph, #subgraphs, attr kind, #outputs, input refs] + permutation keys + entry point. "
+    "case = node records [graph, #subgraphs, attr kind, #outputs, input refs] + permutation keys + entry point + options "
+    "(a nested graph object held twice, members without names, moves of nodes inside their graph before the sort, GRAPHS "
+    "attributes built from generators, graph-less consumers, pass-through bodies). "
     "Input refs are decoded modulo the set of producers visible from the node's graph (its own graph and every "
     "enclosing graph), in any position, so forward references, captures and cycles all occur. Non-trivial = "
     ">=4 nodes and (a nested graph with a capture, or an initial order violating the predicate, or a cycle). "
